@@ -103,8 +103,40 @@ func c07AllValues() map[string]rv.V {
 // ---- queries --------------------------------------------------------------------------------------
 
 type c07Query struct {
-	Keys []ordref.Key `json:"keys"`
-	Lim  ordref.Limit `json:"lim"`
+	Keys  []ordref.Key `json:"keys"`
+	Lim   ordref.Limit `json:"lim"`
+	Decor int          `json:"decor,omitempty"` // other clauses around the same rows (family decorated), see c07Decors
+}
+
+// c07Decors: select forms that return the same rows as SELECT k1, k2, id FROM t (id is unique) while DISTINCT,
+// GROUP BY or analytic functions with their own ORDER BY run before the query's ORDER BY. cols maps the
+// result columns back to (k1, k2, id).
+var c07Decors = []struct {
+	sel  string
+	cols [3]int
+}{
+	{"SELECT k1, k2, id FROM t", [3]int{0, 1, 2}},
+	{"SELECT DISTINCT k1, k2, id FROM t", [3]int{0, 1, 2}},
+	{"SELECT DISTINCT k2, k1, id, RANK() OVER (ORDER BY k1) AS r FROM t", [3]int{1, 0, 2}},
+	{"SELECT k1, k2, id, ROW_NUMBER() OVER (PARTITION BY k2 ORDER BY k1 DESC) AS r FROM t", [3]int{0, 1, 2}},
+	{"SELECT k1, k2, id FROM t GROUP BY k1, k2, id", [3]int{0, 1, 2}},
+	{"SELECT k2, k1, id, COUNT(*) OVER (PARTITION BY k1) AS n, SUM(id) OVER (ORDER BY k2 DESC, id) AS s FROM t", [3]int{1, 0, 2}},
+}
+
+func c07Undecorate(q c07Query, out [][]rv.V) [][]rv.V {
+	if q.Decor == 0 || q.Decor >= len(c07Decors) {
+		return out
+	}
+	d := c07Decors[q.Decor]
+	res := make([][]rv.V, len(out))
+	for i, r := range out {
+		if len(r) < 3 {
+			res[i] = r
+			continue
+		}
+		res[i] = []rv.V{r[d.cols[0]], r[d.cols[1]], r[d.cols[2]]}
+	}
+	return res
 }
 
 var c07Cols = []string{"k1", "k2"}
@@ -176,6 +208,9 @@ func (q c07Query) LimitSQL() string {
 }
 
 func (q c07Query) SQL() string {
+	if q.Decor > 0 && q.Decor < len(c07Decors) {
+		return c07Decors[q.Decor].sel + q.OrderSQL() + q.LimitSQL()
+	}
 	return "SELECT k1, k2, id FROM t" + q.OrderSQL() + q.LimitSQL()
 }
 
@@ -548,6 +583,7 @@ func c07Inversion(got []ordref.Row, keys []ordref.Key) (sig string, at, decider 
 // exec runs a further query on the same table; it is used only to attribute a wrong window to the sort when
 // the same ORDER BY without the limit clause is already wrongly sorted.
 func c07Judge(c *core.Ctx, family, seam string, tbl []ordref.Row, q c07Query, out [][]rv.V, err error, pn any, exec c07Exec) bool {
+	out = c07Undecorate(q, out)
 	n := len(tbl)
 	ordered := len(q.Keys) > 0
 	sorted := ordref.Sorted(tbl, q.Keys)
@@ -770,6 +806,56 @@ func c07Run(c *core.Ctx) {
 	}
 
 	lap("sort")
+	// --- family decorated: DISTINCT / GROUP BY / analytic functions with their own ordering before the ORDER BY
+	{
+		var dq []c07Query
+		var dsql []string
+		for d := 1; d < len(c07Decors); d++ {
+			for _, kl := range lists {
+				if len(kl) == 0 {
+					continue // without ORDER BY the order left by an analytic function or by grouping is not promised
+				}
+				q := c07Query{Keys: kl, Decor: d}
+				dq = append(dq, q)
+				dsql = append(dsql, q.SQL())
+			}
+			for _, lim := range []ordref.Limit{{Kind: ordref.LimRows, N: 2}, {Kind: ordref.LimRows, N: 1, Ties: true}, {Kind: ordref.LimRows, N: 2, HasOff: true, Off: 1}} {
+				for _, kl := range [][]ordref.Key{{{Col: 0}}, {{Col: 1, Dir: ordref.DirDesc}}, {{Col: 1}, {Col: 0, Dir: ordref.DirDesc}}} {
+					q := c07Query{Keys: kl, Lim: lim, Decor: d}
+					dq = append(dq, q)
+					dsql = append(dsql, q.SQL())
+				}
+			}
+		}
+		maxRows := 3
+		dk1 := c07Num3
+		if c.Thorough() {
+			dk1 = c07Num
+		}
+		c.Info("decorated select forms", len(c07Decors)-1)
+		cut := false
+		var count int64
+		c07Tables(dk1, c07Num3, maxRows, func(idx int64, tbl []ordref.Row) bool {
+			count = idx + 1
+			if !c.Mine(base + idx) {
+				return true
+			}
+			if c.Expired() {
+				c.Incomplete("time budget reached in family decorated")
+				cut = true
+				return false
+			}
+			r.load(tbl)
+			c07RunQueries(c, r, "decorated", tbl, dq, dsql)
+			c.Add("tables", 1)
+			return true
+		})
+		base += count
+		if cut {
+			return
+		}
+	}
+	lap("decorated")
 	// --- family cut
 	for i, p := range plan.cutPairs {
 		f := 0
